@@ -252,6 +252,19 @@ theorem wlist_input : wlist.InputOK where
 
 example : wlist.keptE 0 1 = true ∧ wlist.keptE 0 2 = false := by decide +kernel
 
+/-- the same with every block named: `fully_diagonalize=[0, 1]` -/
+def wall : Problem ℚ := { wlist with fd := .tuple [0, 1] }
+
+theorem wall_input : wall.InputOK where
+  wf := by decide
+  blocks_lt := by decide
+  atol_nonneg := by decide +kernel
+  herm := by decide
+  h0_diag := by decide +kernel
+  blocks_apart := by decide +kernel
+  no_shared := by decide +kernel
+  no_masks := by intro l h; cases h
+
 /-- the ends of the chain are farther apart than `atol`, and yet kept together; the fourth level is eliminated against them -/
 example : wchain.equalEigs 0 2 = false ∧ wchain.keptE 0 2 = true ∧ wchain.keptE 0 3 = false := by decide +kernel
 
